@@ -9,6 +9,10 @@ INT_DOM = list(range(-2, 5))
 INT_OPS = list(range(-1, 4))
 STR_DOM = ['', 'abc', 'ABC', 'xabcx', 'b', 'ab\nabc']
 PATTERNS = ['abc', '^abc', 'b$', '^$', 'a.c', '[a-c]+', 'x?abc', '^b']
+UC_DOM = [0, 1, 200, 255]            # unsigned char parameter values
+UC_OPS = [-1, 0, 200, 255, 256, 300]    # int operands, some outside the parameter type's range
+SH_DOM = [-5, 0, 7, 32767]             # short parameter values
+SH_OPS = [-40000, -5, 7, 32767, 70000]
 PTR_DOM = ['null'] + [str(i) for i in range(-1, 4)]   # pointee values
 STRUCT_DOM = [(a, b) for a in (0, 1, 2) for b in (0, 1, 2)]
 
@@ -72,7 +76,7 @@ def cxx(t, dom):
     if k == 'wild':
         return 'trompeloeil::_'
     if k == 'any':
-        return {'int': 'ANY(int)', 'ptr': 'ANY(int*)', 'struct': 'ANY(S const&)', 'str': 'ANY(std::string const&)'}[dom]
+        return {'int': 'ANY(int)', 'uc': 'ANY(unsigned char)', 'sh': 'ANY(short)', 'ptr': 'ANY(int*)', 'struct': 'ANY(S const&)', 'str': 'ANY(std::string const&)'}[dom]
     if k == 'not':
         return '!' + cxx(t.args[0], dom)
     if k in ('anyof', 'allof', 'noneof'):
@@ -134,6 +138,15 @@ def gen_int(rng, depth, allow_val=False, top=False):
              typed=rng.random() < 0.2)
 
 
+def gen_num(rng, depth, ops):
+    """trees over a narrow integral parameter type with int operands (no typed / var variants)"""
+    if depth <= 0 or rng.random() < 0.4:
+        return T(rng.choice(list(REL)), rng.choice(ops))
+    if rng.random() < 0.3:
+        return T('not', gen_num(rng, depth - 1, ops))
+    return T(rng.choice(['anyof', 'allof', 'noneof']), *[gen_num(rng, depth - 1, ops) for _ in range(rng.randint(1, 3))])
+
+
 def gen_ptr(rng, depth):
     r = rng.random()
     if depth <= 0 or r < 0.45:
@@ -180,8 +193,12 @@ struct MockC
   MAKE_MOCK1(fs, void(S const&));
   MAKE_MOCK1(fstr, void(std::string const&));
   MAKE_MOCK1(fcs, void(char const*));
+  MAKE_MOCK1(fuc, void(unsigned char));
+  MAKE_MOCK1(fsh, void(short));
 };
 static int const INT_DOM[] = {-2, -1, 0, 1, 2, 3, 4};
+static unsigned char const UC_DOM[] = {0, 1, 200, 255};
+static short const SH_DOM[] = {-5, 0, 7, 32767};
 static char const* const STR_DOM[] = {"", "abc", "ABC", "xabcx", "b", "ab\\nabc"};
 template <typename F> static int called(F&& f) { G::reports().clear(); try { f(); return 1; } catch (Fatal const&) { return 0; } }
 '''
@@ -216,6 +233,10 @@ def emit_test_body(k, t, dom, e):
     if dom == 'int':
         L.append('  { auto m = %s; for (int i = 0; i < 7; ++i) { int x = INT_DOM[i]; G::out("r %d pm %%d %%d", i, trompeloeil::param_matches(m, std::ref(x)) ? 1 : 0); } }' % (e, k))
         L.append('  { MockC mk; ALLOW_CALL(mk, fi(%s)); for (int i = 0; i < 7; ++i) { int x = INT_DOM[i]; G::out("r %d call %%d %%d", i, called([&]{ mk.fi(x); })); } }' % (e, k))
+    elif dom in ('uc', 'sh'):
+        ct, arr, fnm = ('unsigned char', 'UC_DOM', 'fuc') if dom == 'uc' else ('short', 'SH_DOM', 'fsh')
+        L.append('  { auto m = %s; for (int i = 0; i < 4; ++i) { %s x = %s[i]; G::out("r %d pm %%d %%d", i, trompeloeil::param_matches(m, std::ref(x)) ? 1 : 0); } }' % (e, ct, arr, k))
+        L.append('  { MockC mk; ALLOW_CALL(mk, %s(%s)); for (int i = 0; i < 4; ++i) { %s x = %s[i]; G::out("r %d call %%d %%d", i, called([&]{ mk.%s(x); })); } }' % (fnm, e, ct, arr, k, fnm))
     elif dom == 'ptr':
         L.append('  int vals[] = {-1, 0, 1, 2, 3};')
         L.append('  { auto m = %s; for (int i = 0; i < 6; ++i) { int* x = i ? &vals[i-1] : nullptr; G::out("r %d pm %%d %%d", i, trompeloeil::param_matches(m, std::ref(x)) ? 1 : 0); } }' % (e, k))
@@ -241,6 +262,10 @@ def emit_test_body(k, t, dom, e):
 def domain_values(dom, mode):
     if dom == 'int':
         return INT_DOM
+    if dom == 'uc':
+        return UC_DOM
+    if dom == 'sh':
+        return SH_DOM
     if dom == 'ptr':
         return [None, -1, 0, 1, 2, 3]
     if dom == 'struct':
@@ -260,7 +285,7 @@ def strm_ok_for_cstr(t):
 
 def plan(tier, seed):
     rng = random.Random(seed * 9176 + 11)
-    n = dict(quick=dict(int=60, ptr=20, struct=16, str=16), thorough=dict(int=700, ptr=300, struct=250, str=250))[tier]
+    n = dict(quick=dict(int=60, ptr=20, struct=16, str=16, uc=8, sh=8), thorough=dict(int=700, ptr=300, struct=250, str=250, uc=80, sh=80))[tier]
     trees = []
     # fixed part: every relational matcher x every operand, combinators applied to them (exhaustive over the small domain)
     for rel in REL:
@@ -281,11 +306,49 @@ def plan(tier, seed):
         for flag in ('none', 'icase', 'notbol'):
             trees.append(('str', T('re', pat, flag)))
     fixed = len(trees)
-    gens = {'int': gen_int, 'ptr': gen_ptr, 'struct': gen_struct, 'str': gen_str}
+    gens = {'int': gen_int, 'ptr': gen_ptr, 'struct': gen_struct, 'str': gen_str,
+            'uc': lambda r, d: gen_num(r, min(d, 2), UC_OPS), 'sh': lambda r, d: gen_num(r, min(d, 2), SH_OPS)}
+    for rel in REL:
+        for v in (UC_OPS[0], UC_OPS[-2], UC_OPS[-1]):
+            trees.append(('uc', T(rel, v)))
+        for v in (SH_OPS[0], SH_OPS[-1]):
+            trees.append(('sh', T(rel, v)))
     for dom, cnt in n.items():
         for _ in range(cnt):
             trees.append((dom, gens[dom](rng, 3)))
     return trees, fixed
+
+
+NAMED = r'''
+// a named matcher (lvalue) is composed into !m / *m / any_of(...) and then used again: composition must copy it
+static void test_9500() {
+  std::string s1 = "abc", s2 = "zz"; std::string* ps = &s1; int i3 = 3; int* pi = &i3;
+  auto named = trompeloeil::eq(std::string("abc"));
+  auto d = *named;
+  G::out("n 0 %d", trompeloeil::param_matches(d, std::ref(ps)) ? 1 : 0);
+  G::out("n 1 %d", trompeloeil::param_matches(named, std::ref(s1)) ? 1 : 0);
+  auto neg = !named;
+  G::out("n 2 %d", trompeloeil::param_matches(neg, std::ref(s1)) ? 1 : 0);
+  G::out("n 3 %d", trompeloeil::param_matches(named, std::ref(s1)) ? 1 : 0);
+  auto any = trompeloeil::any_of(named, trompeloeil::eq(std::string("zz")));
+  G::out("n 4 %d", trompeloeil::param_matches(any, std::ref(s2)) ? 1 : 0);
+  G::out("n 5 %d", trompeloeil::param_matches(named, std::ref(s1)) ? 1 : 0);
+  auto d2 = *named;
+  G::out("n 6 %d", trompeloeil::param_matches(d2, std::ref(ps)) ? 1 : 0);
+  auto ni = trompeloeil::gt(2);
+  auto di = *ni; auto ai = trompeloeil::all_of(ni, trompeloeil::lt(5)); auto nni = !ni;
+  G::out("n 7 %d", trompeloeil::param_matches(di, std::ref(pi)) ? 1 : 0);
+  G::out("n 8 %d", trompeloeil::param_matches(ai, std::ref(i3)) ? 1 : 0);
+  G::out("n 9 %d", trompeloeil::param_matches(nni, std::ref(i3)) ? 1 : 0);
+  G::out("n 10 %d", trompeloeil::param_matches(ni, std::ref(i3)) ? 1 : 0);
+  MockC mk;
+  ALLOW_CALL(mk, fstr(named));
+  G::out("n 11 %d", called([&]{ mk.fstr(s1); }));
+  G::out("n 12 %d", called([&]{ mk.fstr(s2); }));
+}
+static G::Reg reg_9500(9500, &test_9500);
+'''
+NAMED_EXPECT = [1, 1, 0, 1, 1, 1, 1, 1, 1, 0, 1, 1, 0]
 
 
 def run(prop, tier, seed):
@@ -299,6 +362,7 @@ def run(prop, tier, seed):
             dom, t = trees[k]
             body.append(emit_test(k, t, dom))
         files['match_%03d.cpp' % (i // per)] = '\n'.join(body) + '\n'
+    files['match_named.cpp'] = HEADER + NAMED
     try:
         exe, bdir = genprog.build_program('gen_match', files)
     except build.BuildError as ex:
@@ -306,13 +370,16 @@ def run(prop, tier, seed):
         return v.finish()
     rc, out, err, to = genprog.run_program(exe)
     results = {}
+    named_got = {}
     cur = None
     done = set()
     for ln in out.split('\n'):
         t = ln.split()
         if not t:
             continue
-        if t[0] == 'r':
+        if t[0] == 'n':
+            named_got[int(t[1])] = int(t[2])
+        elif t[0] == 'r':
             results.setdefault(int(t[1]), []).append((t[2], int(t[3]), int(t[4])))
         elif t[0] == 'TEST':
             cur = int(t[1])
@@ -347,12 +414,18 @@ def run(prop, tier, seed):
             nontriv.add(expr)
         if len(samples) < 4 and k >= fixed:
             samples.append(dict(tree=expr, domain=dom, truth_table={repr(x): ev(t, x, dom) for x in domain_values(dom, 'pm')}))
-    if len(done) < len(trees) and not (rc != 0 or to):
+    if 9500 in done:
+        for i, want in enumerate(NAMED_EXPECT):
+            comparisons += 1
+            if named_got.get(i) != want:
+                v.violation('mismatch|named-reuse', 'named matcher reused after composition: check %d gives %s, expected %s (see NAMED in vlib/gen_match.py)' % (i, named_got.get(i), want),
+                            dict(engine='gen_match', scene='named matcher composed and reused', got=named_got))
+    if len(done - {9500}) < len(trees) and not (rc != 0 or to):
         v.inconclusive.append('only %d of %d tests ran' % (len(done), len(trees)))
     v.coverage = dict(evaluations=comparisons, distinct_nontrivial=len(nontriv),
                       rule='one evaluation = one (matcher tree, value, application mode) comparison of the real matcher with the mathematical predicate; modes: param_matches on int / int* / unique_ptr / shared_ptr / struct / std::string / char const* (incl. null) and as the parameter of a real mock call (accepted vs no-match report); distinct non-trivial = distinct tree that accepts some and rejects some values of its domain',
                       samples=samples, trees=len(trees), fixed_trees=fixed, random_trees=len(trees) - fixed,
-                      by_domain={d: sum(1 for x in trees if x[0] == d) for d in ('int', 'ptr', 'struct', 'str')},
+                      by_domain={d: sum(1 for x in trees if x[0] == d) for d in ('int', 'uc', 'sh', 'ptr', 'struct', 'str')},
                       exhaustive=False)
     v.assumptions = ['Python oracle gen_match.ev implements the mathematical predicates', 'ASan/UBSan catch a null dereference in *m / re directly']
     return v.finish()
